@@ -17,7 +17,7 @@ use ckb_types::{
     core::{BlockNumber, EpochNumber, HeaderView},
     packed,
     prelude::*,
-    utilities::merkle_mountain_range::VerifiableHeader,
+    utilities::{compact_to_difficulty, merkle_mountain_range::VerifiableHeader},
     U256,
 };
 
@@ -281,7 +281,35 @@ impl LightClientProtocol {
         Ok(())
     }
 
+    /// Checks that the total difficulties of headers could be calculated without overflow.
+    pub(crate) fn check_total_difficulty_for_headers<'a, T: Iterator<Item = &'a VerifiableHeader>>(
+        &self,
+        headers: T,
+    ) -> Result<(), Status> {
+        for verifiable_header in headers {
+            let header = verifiable_header.header();
+            let parent_total_difficulty: U256 = verifiable_header
+                .parent_chain_root()
+                .total_difficulty()
+                .unpack();
+            let block_difficulty = compact_to_difficulty(header.compact_target());
+            if parent_total_difficulty
+                .checked_add(&block_difficulty)
+                .is_none()
+            {
+                let errmsg = format!(
+                    "total difficulty is overflowed for block#{}, hash: {:#x}",
+                    header.number(),
+                    header.hash()
+                );
+                return Err(StatusCode::InvalidChainRoot.with_context(errmsg));
+            }
+        }
+        Ok(())
+    }
+
     fn check_verifiable_header(&self, verifiable_header: &VerifiableHeader) -> Result<(), Status> {
+        self.check_total_difficulty_for_headers(Some(verifiable_header).into_iter())?;
         let header = verifiable_header.header();
         // Check PoW
         if !self.consensus.pow_engine().verify(&header.data()) {
